@@ -1,5 +1,6 @@
 import XmppModel.Model.Sasl
 import XmppModel.Lemmas.Sasl
+import XmppModel.Generated.C03
 /-!
 # C03 — the authenticated bit is only set by a completed, accepted SASL exchange
 
@@ -499,6 +500,74 @@ example :
     let mech : Mech := fun _ => { kind := .done }
     let r := serverLoopW [("M", mech)] none 0 [.auth "M" .empty]
     r.authn = false ∧ r.err = .writeErr ∧ r.sent = [] := by decide
+
+/-! ### many sessions on one feature value -/
+
+/-- **No shared mutable state in the feature value** (regenerated from `sasl.go` on every
+run with go/ast): no variable of `newSASL` — its parameters, or anything declared beside the
+`StreamFeature` it returns — is assigned to, incremented, ranged into or address-taken inside
+the feature's `List` / `Parse` / `Negotiate` closures.  The sessions that share one
+`xmpp.SASL` / `xmpp.SASLServer` value therefore share only values that are never written,
+which is what makes the product model of `C03_sessions_independent` the right one.  (Not
+seen by the extractor: mutation through a method of a captured pointer.) -/
+theorem C03_gen_closure_no_shared_writes : Generated.C03.saslClosureWrites = some [] := by decide
+
+
+/-- **Sessions are independent.**  Whatever the schedule — any interleaving of the sessions'
+steps, any number of sessions — the state of session `i` is the state it reaches when run
+alone for as many quanta as the schedule gave it: it is a function of its own script only,
+nothing another session does (its credentials, its permission verdicts, the mechanism it
+chose) enters it. -/
+theorem C03_sessions_independent (cfg : List (String × Mech)) (sched : List Nat) :
+    ∀ (ss : List SSess) (i : Nat),
+    (runSched cfg ss sched)[i]? = ss[i]?.map (SSess.iter cfg (sched.count i)) := by
+  induction sched with
+  | nil => intro ss i; simp [runSched, SSess.iter]
+  | cons j sched ih =>
+    intro ss i
+    simp only [runSched]
+    rw [ih, List.getElem?_modify, List.count_cons]
+    by_cases hji : j = i
+    · subst hji
+      cases h : ss[j]? with
+      | none => simp
+      | some s => simp [SSess.iter]
+    · have : (j == i) = false := by simpa using hji
+      simp [hji, this]
+
+/-- … so, once the schedule has given session `i` one quantum more than its script is long,
+it has finished with exactly the result of `negotiateServer` on its own script: its `Authn`
+bit, the elements written to it and the permission verdicts recorded for it are those of its
+own credentials (`C03_server_sound`, `C03_server_plain_permission` apply to it). -/
+theorem C03_sessions_outcome (cfg : List (String × Mech)) (scripts : List (List SEv))
+    (sched : List Nat) (i : Nat) (peer : List SEv) (hi : scripts[i]? = some peer)
+    (hfair : peer.length + 1 ≤ sched.count i) :
+    (runSched cfg (scripts.map SSess.start) sched)[i]? = some (.finished (serverNeg cfg peer)) := by
+  rw [C03_sessions_independent, List.getElem?_map, hi]
+  obtain ⟨m, hm⟩ := Nat.exists_eq_add_of_le hfair
+  simp only [Option.map_some, SSess.start]
+  rw [hm, SSess.iter_add, SSess.iter_serverLoop, SSess.iter_finished]
+  simp [SRes.prefixed, serverNeg]
+
+-- non-vacuity: two PLAIN sessions, the first refused, the second accepted, interleaved
+def sessSummary : SSess → Option (Bool × List PermCall)
+  | .finished r => some (r.authn, r.perms)
+  | .running .. => none
+
+example :
+    (runSched [("PLAIN", plainServer fun u p _ => u == [117] && p == [112])]
+      ([[SEv.auth "PLAIN" (.valid [0, 117, 0, 113])],
+        [SEv.auth "PLAIN" (.valid [0, 117, 0, 112])]].map SSess.start) [1, 0, 0, 1]).map sessSummary
+    = [some (false, [⟨[117], [113], [], false⟩]), some (true, [⟨[117], [112], [], true⟩])] := by
+  decide
+
+/-- a mechanism the receiving side accepts is one it advertised -/
+theorem C03_server_accepts_only_advertised (cfg : List (String × Mech)) (name n : String) (m : Mech)
+    (h : lookup cfg name = some (n, m)) : n ∈ advertised cfg := by
+  have hs := lookup_supported h
+  have hm := List.mem_of_find?_eq_some h
+  simp only [advertised, List.mem_filter, List.mem_map]
+  exact ⟨⟨(n, m), hm, rfl⟩, hs⟩
 
 /-- the feature dispatch in front of `negotiateServer` adds no way to authenticate -/
 theorem C03_server_session (cfg : List (String × Mech)) (peer : List SEv)
